@@ -223,6 +223,32 @@ theorem dead_stays_dead {a a' : Auto} {l : List Ev} {id : Nat} (h : autoRun a l 
       · omega
     · exact ih h2 hn1 hd1 e' h3
 
+theorem dead_final {a a' : Auto} {l : List Ev} {id : Nat} (h : autoRun a l = some a')
+    (hn : id < a.n) (hd : id ∉ ids a.live) : id ∉ ids a'.live := by
+  induction l generalizing a with
+  | nil => simp [autoRun] at h; subst h; exact hd
+  | cons e t ih =>
+    obtain ⟨a1, h1, h2⟩ := autoRun_cons h
+    obtain ⟨g1, g2, _, _⟩ := autoStep_live h1
+    refine ih h2 (Nat.lt_of_lt_of_le hn g1) ?_
+    intro hc
+    rcases g2 id hc with h3 | h3
+    · exact hd h3
+    · omega
+
+/-- after an accepted `drvClose id`, `id` is dead -/
+theorem close_kills {a a' : Auto} {id r : Nat} (hb : Bounded a) (h : autoStep a (Ev.drvClose id r) = some a') :
+    id < a'.n ∧ id ∉ ids a'.live := by
+  have hlive : id ∈ ids a.live := by
+    rcases autoStep_touch h (id := id) (by simp [Ev.dev]) with h5 | h5
+    · exact h5
+    · obtain ⟨_, _, _, _, h6⟩ := h5; simp at h6
+  refine ⟨Nat.lt_of_lt_of_le (hb id hlive) (autoStep_live h).1, ?_⟩
+  simp only [autoStep] at h
+  split at h <;> simp at h
+  subst h
+  simp [mem_ids_delLive]
+
 /-- **nothing after close**: in a log the automaton accepts, no event after `drvClose id` is about `id`
 (no call, no second close, no read, no write, and no new device under the same ordinal). -/
 theorem nothing_after_close {a a' : Auto} {pre post : List Ev} {id r : Nat} (hb : Bounded a)
@@ -259,5 +285,41 @@ theorem closed_in_log {a a' : Auto} {l : List Ev} {id : Nat} (h : autoRun a l = 
         · exact Or.inl ⟨h5, hl⟩
         · exact absurd h5 h3.2
     · exact Or.inr ⟨r, by simp [h3]⟩
+
+/-- the counter only moves when the driver hands out the device with that ordinal -/
+theorem opened_in_log {a a' : Auto} {l : List Ev} {id : Nat} (h : autoRun a l = some a') (hn : id < a'.n) :
+    id < a.n ∨ ∃ k i, Ev.drvOpen Ok (some (id, k, i)) ∈ l := by
+  induction l generalizing a with
+  | nil => simp [autoRun] at h; subst h; exact Or.inl hn
+  | cons e t ih =>
+    obtain ⟨a1, h1, h2⟩ := autoRun_cons h
+    rcases ih h2 with h3 | ⟨k, i, h3⟩
+    · by_cases hlt : id < a.n
+      · exact Or.inl hlt
+      · right
+        cases e with
+        | drvOpen st d =>
+          cases d with
+          | none => simp [autoStep] at h1; subst h1; exact absurd h3 hlt
+          | some t' =>
+            obtain ⟨j, k, i⟩ := t'
+            simp only [autoStep] at h1
+            split at h1
+            · rename_i hc
+              simp at h1; subst h1
+              obtain ⟨hc1, hc2⟩ := hc
+              have : id = j := by simp only at h3; omega
+              subst this; subst hc1
+              exact ⟨k, i, by simp⟩
+            · simp at h1
+        | drvDescribe j r => simp only [autoStep] at h1; split at h1 <;> simp at h1; subst h1; exact absurd h3 hlt
+        | rd j f => simp only [autoStep] at h1; split at h1 <;> simp at h1; subst h1; exact absurd h3 hlt
+        | drvClose j r => simp only [autoStep] at h1; split at h1 <;> simp at h1; subst h1; exact absurd h3 hlt
+        | wr j f v => simp only [autoStep] at h1; split at h1 <;> simp at h1; subst h1; exact absurd h3 hlt
+        | call j f r =>
+          simp only [autoStep] at h1; split at h1
+          · simp at h1
+          · split at h1 <;> simp at h1; subst h1; exact absurd h3 hlt
+    · exact Or.inr ⟨k, i, by simp [h3]⟩
 
 end AcqVerif.Hal
